@@ -96,8 +96,52 @@ def run_giant(case):
     return None, {}
 
 
+def run_generations(case):
+    """Several 'replications' on one list: a few hundred events are added, the list
+    is cleared while they are pending and NOBODY keeps them (so their memory, and
+    id(), is reused), new events are added and completely drained.  Judged by
+    sortedness and identity of the drained events."""
+    import gc
+    import random as _random
+    rng = _random.Random(case["seed"])
+    SimEvent._SimEvent__event_counter = 0
+    el = EventListHeap()
+    tgt = _Target()
+    for g in range(case["generations"]):
+        old = [SimEvent(rng.randrange(0, 60) / 2.0, tgt, "m", rng.choice(PRIOS))
+               for _ in range(case["n"])]
+        for ev in old:
+            el.add(ev)
+        el.clear()
+        del old, ev
+        gc.collect()
+        new = [SimEvent(rng.randrange(0, 60) / 2.0, tgt, "m", rng.choice(PRIOS))
+               for _ in range(case["n"])]
+        for ev in new:
+            el.add(ev)
+        if g % 2 == 0 and new:
+            victim = new[rng.randrange(len(new))]
+            if not el.remove(victim):
+                return ("remove", "generation %d: remove() of a pending event returned False" % g), {}
+            new = [e for e in new if e is not victim]
+        expected = sorted(new, key=key_of)
+        for j, exp in enumerate(expected):
+            got = el.pop_first()
+            if got is not exp:
+                return ("drain-order", "generation %d (after clear() of %d pending events that "
+                        "nobody kept): pop #%d returned %s while %s was still pending"
+                        % (g, case["n"], j, _desc(got), _desc(exp))), {}
+        if not el.is_empty():
+            return ("size", "generation %d: list not empty after the drain" % g), {}
+        del new, expected
+    return None, {}
+
+
 def generate(seed, tier, idx=0):
     rng = common.rng_for(seed, "case")
+    if rng.random() < 2e-3:
+        return {"kind": "generations", "n": rng.choice([50, 200, 400]), "generations": 3,
+                "ttype": "float", "seed": rng.getrandbits(32), "ops": []}
     if rng.random() < (1e-4 if tier == "quick" else 1e-3):
         return {"kind": "giant", "n": rng.choice([40000, 70000]), "removes": 400,
                 "ttype": rng.choice(["float", "int"]), "seed": rng.getrandbits(32), "ops": []}
@@ -386,7 +430,11 @@ def _desc(e):
 
 
 def execute(case):
-    if case.get("kind") == "giant":
+    if case.get("kind") == "generations":
+        finding, _ = run_generations(case)
+        info = {"ops": case["n"] * 2 * case["generations"], "interior_removed": True,
+                "pop_after": True}
+    elif case.get("kind") == "giant":
         finding, _ = run_giant(case)
         info = {"ops": case["n"] + case["removes"], "interior_removed": True, "pop_after": True}
     else:
